@@ -29,6 +29,11 @@ type selfEdit struct {
 	Rule string `json:"rule"`
 	Key  string `json:"key,omitempty"` // substring of the reported key
 	Note string `json:"note,omitempty"`
+	More []struct {
+		File string `json:"file"`
+		Old  string `json:"old"`
+		New  string `json:"new"`
+	} `json:"more,omitempty"`
 }
 
 type selfResult struct {
@@ -81,6 +86,15 @@ func runSelfEdit(e selfEdit) selfResult {
 	mut := strings.Replace(string(b), e.Old, e.New, 1)
 	if err := os.WriteFile(filepath.Join(dir, e.File), []byte(mut), 0o644); err != nil {
 		return selfResult{e.ID, "invalid", err.Error()}
+	}
+	for _, m := range e.More {
+		mb, err := os.ReadFile(filepath.Join(dir, m.File))
+		if err != nil || !strings.Contains(string(mb), m.Old) {
+			return selfResult{e.ID, "skipped-context-missing", ""}
+		}
+		if err := os.WriteFile(filepath.Join(dir, m.File), []byte(strings.Replace(string(mb), m.Old, m.New, 1)), 0o644); err != nil {
+			return selfResult{e.ID, "invalid", err.Error()}
+		}
 	}
 	self, _ := os.Executable()
 	cmd := exec.Command(self, "-repo", dir, "-verif", verifDir, "-no-evidence", "-prop", e.Prop, "-tier", "quick")
